@@ -248,7 +248,6 @@ func runOne(pd *propDef, p *Prog, loadErr error, loadDur time.Duration, tier, ve
 	return len(failing) > 0
 }
 
-
 func progPkgs(p *Prog) int {
 	if p == nil {
 		return 0
